@@ -246,6 +246,7 @@ def build(cfg, rng, pool, target=True, name_form='list', live=None):
             b.payload = rng.randbytes(cfg['app']) if cfg['app'] >= 0 else None
             try:
                 w, fn = make_interest(name_arg, b.param, b.payload, signer=b.rec, need_final_name=True)
+                b.raw, b.raw_final_name = w, fn          # the caller's objects, kept alive by histories
                 b.wire = bytes(w)
                 b.final_name = [bytes(c) for c in fn]
             except Exception as e:  # noqa
@@ -262,7 +263,8 @@ def build(cfg, rng, pool, target=True, name_form='list', live=None):
                 b.meta_in = None
             b.payload = rng.randbytes(cfg['content']) if cfg['content'] >= 0 else None
             try:
-                b.wire = bytes(make_data(name_arg, b.meta, b.payload, signer=b.rec))
+                b.raw = make_data(name_arg, b.meta, b.payload, signer=b.rec)
+                b.wire = bytes(b.raw)
             except Exception as e:  # noqa
                 b.exc = e
     finally:
@@ -431,6 +433,8 @@ COMP_TYPES = [8, 8, 8, 8, 1, 32, 50, 54, 58, 252, 253, 300, 65535]
 
 def rand_comp(rng, allow_pd):
     t = rng.choice(COMP_TYPES + ([T_PD] if allow_pd else []))
+    if t == T_PD and rng.random() < 0.03:
+        return {'t': t, 'l': rng.choice([0, 1, 31, 33, 64])}      # a placeholder of a wrong length: must be refused
     if t in (1, T_PD):
         return {'t': t, 'l': 32}
     l = rng.choice([0, 1, 1, 2, 3, 5, 8, 20, 100, 249, 250, 251, 252, 253, 254, 300]) if rng.random() < 0.85 \
